@@ -59,7 +59,16 @@ MODULES = [
         dict(name='R-mods', pat='mod prefix_iter;\nmod range_iter;\nmod reader_cursor;\n', rep=''),
         dict(name='R-closure-spec:new', pat='.map(|metadata| Reader { metadata, reader })', rep='.map(|metadata: Metadata| -> (r: Reader<R>) ensures r.metadata == metadata && r.reader == reader { Reader { metadata, reader } })'),
     ]),
-    dict(name='reader::reader_cursor', file='reader/reader_cursor.rs', header=HDR_IO, rewrites=[]),
+    dict(name='reader::reader_cursor', file='reader/reader_cursor.rs', header=HDR_IO, rewrites=[
+        dict(name='R-bytes:u64-from', kind='re', pat=r'offset_bytes\.try_into\(\)\.map\(u64::from_(be|le)_bytes\)\.unwrap\(\)', rep=r'crate::vstubs::u64_from_\1_bytes(offset_bytes)', count=8),
+        dict(name='R-closure-spec:Some', pat='.map(Some)', rep='.map(|b: Block| -> (r: Option<Block>) ensures r == Some(b) { Some(b) })', count=2),
+        dict(name='R-byval-handle:ibc', kind='re', pat=r'(fn move_on_(?:first|last|next|prev)<R: io::Read \+ io::Seek>\(\n\s*&mut self,\n\s*)reader: R,', rep=r'\1reader: &mut R,', count=4),
+        dict(name='R-byval-handle:ibc-ge', kind='re', pat=r'(fn move_on_key_greater_than_or_equal_to<R: io::Read \+ io::Seek>\(\n\s*&mut self,\n\s*key: &\[u8\],\n\s*)reader: R,', rep=r'\1reader: &mut R,', count=1),
+        dict(name='R-closure-spec:filter-le', pat='.map(|opt| opt.filter(|(key, _)| *key <= target_key))',
+             rep='.map(|opt: Option<(&[u8], &[u8])>| -> (r: Option<(&[u8], &[u8])>) ensures r == (if opt is Some && lex_le((opt->0).0@, target_key@) { opt } else { None::<(&[u8], &[u8])> }) { proof { crate::vstubs::axiom_slice_u8_obeys(); if opt is Some { crate::vstubs::axiom_slice_u8_ord((opt->0).0, target_key); } } opt.filter(|e: &(&[u8], &[u8])| -> (b: bool) ensures b == lex_le(e.0@, target_key@) { proof { crate::vstubs::axiom_slice_u8_obeys(); crate::vstubs::axiom_slice_u8_ord(e.0, target_key); } e.0 <= target_key }) })'),
+        dict(name='R-closure-spec:filter-eq', pat='.map(|opt| opt.filter(|(k, _)| *k == key))',
+             rep='.map(|opt: Option<(&[u8], &[u8])>| -> (r: Option<(&[u8], &[u8])>) ensures r == (if opt is Some && (opt->0).0@ == key@ { opt } else { None::<(&[u8], &[u8])> }) { proof { crate::vstubs::axiom_slice_u8_obeys(); } opt.filter(|e: &(&[u8], &[u8])| -> (b: bool) ensures b == (e.0@ == key@) { proof { crate::vstubs::axiom_slice_u8_obeys(); crate::vstubs::axiom_slice_u8_eq(e.0, key); } e.0 == key }) })'),
+    ]),
     dict(name='reader::range_iter', file='reader/range_iter.rs', header=HDR_IO, rewrites=[
         dict(name='R-derive:Clone', pat='#[derive(Clone)]\npub struct R', rep='pub struct R', count=2),
         # R-guard-if: Verus does not end the first reborrow when its bindings are only used in a match guard;
@@ -74,7 +83,7 @@ MODULES = [
         # parameter's current value; `fn f(mut x: T) { B }` becomes `fn f(x0: T) { let mut x = x0; B }`
         dict(name='R-mutparam:advance_key', pat='fn advance_key(mut bytes: Vec<u8>) -> Option<Vec<u8>> {', rep='fn advance_key(bytes0: Vec<u8>) -> Option<Vec<u8>> { let mut bytes = bytes0;'),
         dict(name='R-guard-if:prefix', kind='re', pat=r'Some\(\(k, _\)\) if k == next_prefix => cursor\.move_on_prev\(\),\n(\s*)_otherwise => Ok\(cursor\.current\(\)\),',
-             rep=r'Some((k, _)) => { if k == next_prefix { cursor.move_on_prev() } else { Ok(cursor.current()) } }\n\1None => Ok(cursor.current()),'),
+             rep=r'Some((k, _)) => {\n\1    if k == next_prefix {\n\1        cursor.move_on_prev()\n\1    } else {\n\1        Ok(cursor.current())\n\1    }\n\1}\n\1None => {\n\1    Ok(cursor.current())\n\1}'),
     ]),
     dict(name='merge_function', file='merge_function.rs', header=HDR_IO, rewrites=[
         dict(name='drop:Either', kind='drop_item', pat=r'^impl<MFA, MFB> MergeFunction for Either<MFA, MFB>', count=1),
